@@ -2038,7 +2038,14 @@ impl<'a, const C: usize, const R: usize, T: 'a + Copy + std::fmt::Debug> Layout<
     pub fn trans_resolution_layer_order(&self) -> LayerStack {
         let current_layer = self.current_layer();
         if self.trans_resolution_behavior_v2 {
-            let mut v = self.active_held_layers().collect::<LayerStack>();
+            // Leave room for the default layer and the first layer below; with more held layers
+            // than fit, only the most recently activated ones are searched. (Collecting all of
+            // them panicked once 13 layer-while-held keys were down, and with exactly 12 the
+            // default layer silently dropped out of the search.)
+            let mut v = self
+                .active_held_layers()
+                .take(MAX_ACTIVE_LAYERS - 2)
+                .collect::<LayerStack>();
             let _ = v.push(self.default_layer as u16);
             if self.delegate_to_first_layer && current_layer != 0 && self.default_layer != 0 {
                 let _ = v.push(0);
